@@ -169,3 +169,27 @@ Theorem C11_predict_block_mode_independent :
   forall perkey, predict_block false perkey = predict_block true perkey.
 Proof. exact predict_block_mode_independent. Qed.
 Print Assumptions C11_predict_block_mode_independent.
+
+(* ---- parseUpstream's port text (proxy / upstream arguments with colons and slashes in every order) ----
+   The slice u[len(us)+1 : portsEnd] is in bounds for EVERY address: the end is searched from the LAST colon
+   (u[colon] is ':', so a slash found in u[colon:] lies strictly behind it).  The regenerated obligation of that
+   site (Gen_C11, pinned: the translator does not see that u[colon] is not a slash) is this statement over the
+   facts the translator collects; when the code changes the pin lapses and the targeted search composes
+   arguments from the function's own separators in every relative order (scheme://host:port/path:with:colons,
+   host/a:b, [::1]:80/x:y, unix:/p:q) to find the crashing configuration. *)
+Theorem C11_upstream_port_cut_in_bounds :
+  forall len colon k : Z,
+  (0 <= colon < len -> (k = -1 \/ (1 <= k /\ colon + k + 1 <= len)) ->
+  let portsEnd := if k =? -1 then len else colon + k in
+  0 <= colon + 1 /\ colon + 1 <= portsEnd /\ portsEnd <= len)%Z.
+Proof. exact upstream_port_cut_in_bounds. Qed.
+Print Assumptions C11_upstream_port_cut_in_bounds.
+
+(* ... whereas with the end searched from the host (a seeded variant) the bounds cross for an address whose last
+   colon sits in the path *)
+Theorem C11_upstream_port_cut_from_host_refuted :
+  exists len colon hostStart k : Z,
+    (0 <= hostStart /\ hostStart <= colon /\ colon < len /\ 0 <= k /\ hostStart + k + 1 <= len /\
+    ~ (colon + 1 <= hostStart + k))%Z.
+Proof. exact upstream_port_cut_from_host_refuted. Qed.
+Print Assumptions C11_upstream_port_cut_from_host_refuted.
